@@ -182,6 +182,8 @@ func (c *compiler) compileImport(i *Import) error {
 		if q, err = moduleLoader.LoadModule(path); err != nil {
 			return err
 		}
+	} else {
+		return fmt.Errorf("module not found: %q", path)
 	}
 	// the same path with the same search path is the same module
 	key := fmt.Sprint(path, i.Meta.ToValue()["search"])
@@ -1302,6 +1304,8 @@ func (c *compiler) funcModulemeta(v any, _ []any) any {
 		if q, err = moduleLoader.LoadModule(s); err != nil {
 			return err
 		}
+	} else {
+		return fmt.Errorf("module not found: %q", s)
 	}
 	meta := q.Meta.ToValue()
 	if meta == nil {
